@@ -1,2 +1,163 @@
-(* C17 - statements (placeholder while the model is being validated) *)
-From PV Require Import Mod.ModPerm Mod.ModLoad.
+(* C17 - module loading is deterministic, conflict-safe, and refuses insecure code.
+   Statements only; proofs in Mod/ModFacts.v, Mod/ModInitFacts.v, Mod/ModTop.v.
+   The model (Mod/ModLoad.v, Mod/ModPerm.v) takes the directory listing in ENUMERATION ORDER, the
+   stat() data of every entry and of every directory on the path, what dlsym finds in each file
+   (type, name, priority, personality, option table, whether init succeeds), the -M list, the
+   personality and pdsh's own option letters.  All statements are for every such input. *)
+From Coq Require Import Permutation Sorted.
+From PV Require Import Base.Bytes Mod.ModPerm Mod.ModLoad Mod.ModFacts Mod.ModInitFacts Mod.ModTop.
+Local Open Scope N_scope.
+
+(* ---- determinism ------------------------------------------------------------------------- *)
+(* D17 l: among the entries of l that can be registered (secure regular file, module symbols,
+   fitting personality) the pair (priority, name) identifies the module, and priorities are within
+   +-2^30.  In particular two candidates with the same type and name have different priorities. *)
+Theorem C17_deterministic : forall cfg l l', Permutation l l' -> D17 cfg l ->
+  r_status (load cfg l) = r_status (load cfg l') /\
+  r_modules (load cfg l) = r_modules (load cfg l') /\       (* module list, in order *)
+  r_state (load cfg l) = r_state (load cfg l') /\           (* option string, active set, init() calls in order, registrations, refusals *)
+  Permutation (r_opened (load cfg l)) (r_opened (load cfg l')).
+Proof. exact deterministic. Qed.
+Print Assumptions C17_deterministic.
+
+(* outside D17 the result does depend on the enumeration order (the property only promises "the
+   higher priority one"): two files with the same type, name AND priority *)
+Theorem C17_order_dependent_outside_D17 :
+  exists cfg l l', Permutation l l' /\ NoDup (map f_id l) /\ r_modules (load cfg l) <> r_modules (load cfg l').
+Proof. exact order_dependent_equal_priority_duplicate. Qed.
+Print Assumptions C17_order_dependent_outside_D17.
+
+(* ... and priorities near INT_MAX/INT_MIN, where _cmp_f's subtraction wraps *)
+Theorem C17_order_dependent_priority_overflow :
+  exists cfg l l', Permutation l l' /\ NoDup (map f_id l) /\ key_unique (cands (c_who cfg) (c_pers cfg) l) /\
+                   r_modules (load cfg l) <> r_modules (load cfg l').
+Proof. exact order_dependent_priority_overflow. Qed.
+Print Assumptions C17_order_dependent_priority_overflow.
+
+(* the order of the tests in _mod_register before fixes/C17-register-personality-first.diff was
+   order dependent INSIDE D17 (load_orig), the repaired order is not (load) *)
+Theorem C17_original_register_order_dependent :
+  exists cfg l l', Permutation l l' /\ NoDup (map f_id l) /\ D17 cfg l /\
+                   r_modules (load_orig cfg l) <> r_modules (load_orig cfg l') /\
+                   r_modules (load cfg l) = r_modules (load cfg l').
+Proof. exact register_orig_order_dependent. Qed.
+Print Assumptions C17_original_register_order_dependent.
+
+(* ---- which modules, in which order ------------------------------------------------------- *)
+(* of two candidates with the same type and name the lower priority one is not even listed *)
+Theorem C17_duplicate_priority : forall cfg l a b,
+  In a (cands (c_who cfg) (c_pers cfg) l) -> In b (cands (c_who cfg) (c_pers cfg) l) ->
+  same_tn a b = true -> (lm_prio a < lm_prio b)%Z -> ~ In a (r_modules (load cfg l)).
+Proof. exact duplicate_priority. Qed.
+Print Assumptions C17_duplicate_priority.
+
+(* the module list is exactly the best candidate of every (type, name) *)
+Theorem C17_listed_iff_best : forall cfg l m, r_status (load cfg l) = Loaded -> D17 cfg l ->
+  (In m (r_modules (load cfg l)) <-> best_of (cands (c_who cfg) (c_pers cfg) l) m).
+Proof. exact listed_iff_best. Qed.
+Print Assumptions C17_listed_iff_best.
+
+(* ... sorted by priority (higher first), then by name *)
+Theorem C17_priority_then_name : forall cfg l, D17 cfg l ->
+  StronglySorted (fun x y => (lm_prio x > lm_prio y)%Z \/ (lm_prio x = lm_prio y /\ (strcmp (lm_name x) (lm_name y) <= 0)%Z))
+                 (r_modules (load cfg l)).
+Proof. exact modules_sorted. Qed.
+Print Assumptions C17_priority_then_name.
+
+(* ---- -M first ---------------------------------------------------------------------------- *)
+(* every init() call of the -M pass comes before every call of the priority-ordered pass;
+   the first in -M order, the second in list order *)
+Theorem C17_forced_then_rest : forall cfg l,
+  exists A B, r_inits (load cfg l) = A ++ B /\
+    subseq A (map fst (resolve (r_modules (load cfg l)) (c_forced cfg))) /\
+    subseq B (map fst (r_modules (load cfg l))).
+Proof. exact load_forced_then_sweep. Qed.
+Print Assumptions C17_forced_then_rest.
+
+(* the first -M name that names a listed misc module whose options are free of pdsh's own letters
+   is initialised before everything else, gets all its options and (init succeeding) is active -
+   whatever the priorities of the other modules *)
+Theorem C17_forced_first : forall cfg l name rest m,
+  r_status (load cfg l) = Loaded -> c_forced cfg = name :: rest ->
+  find_misc (r_modules (load cfg l)) name = Some m -> first_conflict (c_pers cfg) (c_base cfg) (snd m) = None ->
+  hd_error (r_inits (load cfg l)) = Some (fst m) /\
+  (m_init_ok (snd m) = true -> In (fst m) (r_active (load cfg l))) /\
+  (forall o, In o (my_opts (c_pers cfg) (snd m)) -> In (fst m, o_letter o, o_arg o) (r_regs (load cfg l))).
+Proof. exact load_forced_first. Qed.
+Print Assumptions C17_forced_first.
+
+(* ---- conflicts --------------------------------------------------------------------------- *)
+(* a listed module one of whose options (for this personality) is held by another module is out as
+   a whole: init() never ran, it is not active, NONE of its options was registered, nothing is
+   dispatched to it *)
+Theorem C17_conflict_whole_module : forall cfg l m o x a,
+  NoDup (map f_id l) -> In m (r_modules (load cfg l)) -> In o (my_opts (c_pers cfg) (snd m)) ->
+  In (x, o_letter o, a) (r_regs (load cfg l)) -> x <> fst m ->
+  ~ In (fst m) (r_inits (load cfg l)) /\ ~ In (fst m) (r_active (load cfg l)) /\
+  (forall c b, ~ In (fst m, c, b) (r_regs (load cfg l))) /\
+  (forall c, r_dispatch (load cfg l) c <> Some (fst m)).
+Proof. exact load_conflict_whole_module. Qed.
+Print Assumptions C17_conflict_whole_module.
+
+(* the option string is pdsh's own letters followed by exactly the registered options, and no letter
+   has two owners *)
+Theorem C17_option_string : forall cfg l,
+  r_optstr (load cfg l) = c_base cfg ++ flat_map reg_bytes (r_regs (load cfg l)) /\
+  forall i j c a b, In (i, c, a) (r_regs (load cfg l)) -> In (j, c, b) (r_regs (load cfg l)) -> i = j.
+Proof. exact option_string. Qed.
+Print Assumptions C17_option_string.
+
+(* an inactive module (whose init would not fail) has left no trace; options go to active modules only *)
+Theorem C17_inactive_no_trace : forall cfg l m,
+  NoDup (map f_id l) -> In m (r_modules (load cfg l)) -> m_init_ok (snd m) = true -> ~ In (fst m) (r_active (load cfg l)) ->
+  ~ In (fst m) (r_inits (load cfg l)) /\ (forall c b, ~ In (fst m, c, b) (r_regs (load cfg l))) /\
+  (forall c, r_dispatch (load cfg l) c <> Some (fst m)).
+Proof. exact load_inactive_no_trace. Qed.
+Print Assumptions C17_inactive_no_trace.
+
+(* ---- no insecure code -------------------------------------------------------------------- *)
+(* whatever is handed to dlopen is a regular file owned by root, the caller or the owner of the pdsh
+   binary and not world-writable, in a directory all of whose ancestors up to "/" are directories
+   with such an owner and not world-writable unless sticky *)
+Theorem C17_no_insecure_load : forall cfg l i, In i (r_opened (load cfg l)) ->
+  (exists f, In f l /\ f_id f = i /\
+     f_reg (f_st f) = true /\
+     (f_owner (f_st f) = 0 \/ f_owner (f_st f) = w_uid (c_who cfg) \/ f_owner (f_st f) = w_alt (c_who cfg)) /\
+     world_writable (f_mode (f_st f)) = false) /\
+  Forall (fun d => d_isdir d = true /\
+                   (d_owner d = 0 \/ d_owner d = w_uid (c_who cfg) \/ d_owner d = w_alt (c_who cfg)) /\
+                   (world_writable (d_mode d) = true -> sticky (d_mode d) = true)) (c_chain cfg).
+Proof. exact no_insecure_load. Qed.
+Print Assumptions C17_no_insecure_load.
+
+(* only opened files are ever listed or initialised; an insecure path means nothing at all happens *)
+Theorem C17_code_runs_only_from_opened : forall cfg l,
+  (forall m, In m (r_modules (load cfg l)) -> In (fst m) (r_opened (load cfg l))) /\
+  (forall i, In i (r_inits (load cfg l)) -> In i (r_opened (load cfg l))) /\
+  (path_permissions_ok (c_who cfg) (c_chain cfg) = false ->
+   r_status (load cfg l) = Refused /\ r_opened (load cfg l) = [] /\ r_modules (load cfg l) = [] /\ r_inits (load cfg l) = []).
+Proof. exact code_runs_only_from_opened. Qed.
+Print Assumptions C17_code_runs_only_from_opened.
+
+(* ---- PDSH_MODULE_DIR --------------------------------------------------------------------- *)
+Theorem C17_privileged_ignores_env : forall (A : Type) (w : who) (env : option A) (builtin : A),
+  w_uid w = 0 \/ w_uid w <> w_euid w -> module_dir w env builtin = builtin.
+Proof. exact @privileged_ignores_env. Qed.
+Print Assumptions C17_privileged_ignores_env.
+
+Theorem C17_ordinary_user_env : forall (A : Type) (w : who) (d builtin : A),
+  w_uid w <> 0 -> w_uid w = w_euid w -> module_dir w (Some d) builtin = d.
+Proof. exact @ordinary_user_env. Qed.
+Print Assumptions C17_ordinary_user_env.
+
+(* ---- non-vacuity ------------------------------------------------------------------------- *)
+(* a directory inside D17 with a duplicate (type, name), an option conflict, a -M name, a module of
+   the other personality and a file of a foreign owner; what load makes of it *)
+Example C17_domain_nonvacuous : D17 (cfg0 [nameB]) demo_listing /\ NoDup (map f_id demo_listing).
+Proof. exact demo_in_D17. Qed.
+
+Example C17_demo_nonvacuous :
+  let r := load (cfg0 [nameB]) demo_listing in
+  r_status r = Loaded /\ map fst (r_modules r) = [2; 3] /\ r_active r = [3] /\ r_inits r = [3] /\
+  r_opened r = [1; 2; 3; 4] /\ r_optstr r = [104; 76; 78; 88; 90] /\ r_dispatch r 88 = Some 3.
+Proof. exact demo_result. Qed.
